@@ -280,9 +280,15 @@ func orEmptyObj(s string) string {
 	return s
 }
 
-var siteRe = regexp.MustCompile(` @[^ ]+$`)
+var siteRe = regexp.MustCompile(` @[^ ]+( \[|$)`)
+var atRe = regexp.MustCompile(` at [^ )]+`)
 
-func stripSite(s string) string { return siteRe.ReplaceAllString(s, "") }
+// stripSite removes file:line positions from a message (they move under unrelated edits).
+func stripSite(s string) string {
+	s = siteRe.ReplaceAllString(s, "$1")
+	s = strings.TrimSuffix(s, " [")
+	return atRe.ReplaceAllString(s, "")
+}
 
 // ---------------------------------------------------------------------------------------
 // Native replay
